@@ -133,7 +133,9 @@ def spec_file_3d(draw, irregular=None, max_voxels=150_000, versions=VERSIONS, la
     extra = draw(st.lists(st.sampled_from([f for f in ARRAY_FIELDS if f not in (189, 193)]), max_size=3, unique=True))
     desc["arrays"] = sorted([189, 193] + extra)
     # writers only ever point a duplicate row at an *earlier* row of the table
-    desc["dups"] = [[f, 189] for f in draw(st.lists(st.sampled_from([197, 201]), max_size=2, unique=True))]
+    # (a duplicate may sit between two owners in table order, e.g. 185 -> 181 with 189 stored as well)
+    desc["dups"] = [list(p) for p in draw(st.lists(st.sampled_from([(197, 189), (201, 189), (185, 181), (77, 73), (9, 5)]),
+                                                    max_size=2, unique=True))]
     irr = draw(st.booleans()) if irregular is None else irregular
     if irr and spec.parse_version(version) > spec.V_0_2_1:
         grid = n_il * n_xl
